@@ -358,7 +358,7 @@ class Machine:
             func, new_shape = (lambda i, c, p: c + k), S + k           # shift
         else:
             perm = [x for x in o["perm"] if x < S]
-            func, new_shape = (lambda i, c, p: perm[c] if c < len(perm) else c), S
+            func, new_shape = (lambda i, c, p: perm[c] if 0 <= c < len(perm) else c), S
         f.updateCoords(func, new_shape=new_shape)
         if m == 1:
             self.shape[lvl] = new_shape
